@@ -1,7 +1,7 @@
-(* C10P.v — proofs for C10: replaying an entry list newest-first into the append-only histories of
-   room.rs fails as soon as one key has two entries with different dates (reload after restart);
-   outside that class (and the un-normalised right flags) the reloaded room decides exactly as the
-   live room. *)
+(* C10P.v — proofs for C10 (state of /repo after 83dc3ea, a68fe8d, 85b1827): replaying an entry list
+   oldest-first (stable sort by date) into the append-only histories of room.rs never fails, so the
+   data an instance wrote can always be reloaded; the reloaded room decides exactly as the live room,
+   for every history (same-date entries included). *)
 From Coq Require Import Permutation.
 From DV Require Import RightsP RoomNodeP Run_C10.
 
@@ -87,76 +87,49 @@ Proof. induction us as [|u tl IH]; simpl; intros l; [reflexivity|]. rewrite add_
 Lemma replay_rights_greplay rs : forall l, replay_rights l rs = greplay eright r_ent r_from l rs.
 Proof. induction rs as [|u tl IH]; simpl; intros l; [reflexivity|]. rewrite add_right_gadd. destruct (gadd _ _ _ _ _); auto. Qed.
 
-(* THE reason restart and first import break: a list replayed newest first is refused as soon as one
-   key has two entries with different dates *)
-Lemma greplay_desc_two_dates {A} (kf : A -> N) (df : A -> Z) (l : list A) x y :
-  In x l -> In y l -> kf x = kf y -> df x <> df y -> greplay A kf df [] (desc_by df l) = None.
+
+(* ------------------------------------------------------------------ oldest-first replay never fails *)
+Lemma greplay_asc {A} (kf : A -> N) (df : A -> Z) xs : forall l,
+  asc A df xs -> (forall v x, In v l -> In x xs -> df v <= df x) ->
+  greplay A kf df l xs = Some (rev xs ++ l).
 Proof.
-  intros Hx Hy Hk Hd.
-  destruct (greplay A kf df [] (desc_by df l)) as [l'|] eqn:Hr; [exfalso|reflexivity].
-  unfold desc_by in Hr.
-  pose proof (sort_by_asc A (fun z => - df z) l) as Hs.
-  assert (Hcase : df x < df y \/ df y < df x) by lia.
-  destruct Hcase as [Hlt|Hlt].
-  - destruct (asc_before A (fun z => - df z) _ Hs y x) as (a & b & c & He); [apply sort_by_in; exact Hy|apply sort_by_in; exact Hx|lia|].
-    pose proof (greplay_ascending A kf df _ _ a y b x c Hr He (eq_sym Hk)). lia.
-  - destruct (asc_before A (fun z => - df z) _ Hs x y) as (a & b & c & He); [apply sort_by_in; exact Hx|apply sort_by_in; exact Hy|lia|].
-    pose proof (greplay_ascending A kf df _ _ a x b y c Hr He Hk). lia.
+  induction xs as [|x tl IH]; simpl; intros l Hs Hl; [reflexivity|].
+  destruct Hs as [Hx Hs]. rewrite Forall_forall in Hx.
+  assert (Hg : gadd A kf df l x = Some (x :: l)).
+  { unfold gadd. destruct (glast A kf l (kf x)) as [v|] eqn:Hv; [|reflexivity].
+    unfold glast in Hv. apply find_some in Hv. destruct Hv as [Hin _].
+    assert (df v <= df x) by (apply Hl; [exact Hin|left; reflexivity]).
+    destruct (Z.ltb (df x) (df v)) eqn:Hlt; [apply Z.ltb_lt in Hlt; lia|reflexivity]. }
+  rewrite Hg, IH; [rewrite <- app_assoc; reflexivity|exact Hs|].
+  intros v y [<-|Hv] Hy; [apply Hx; exact Hy|apply Hl; [exact Hv|right; exact Hy]].
+Qed.
+(* THE repaired replay: whatever the entries, sorted oldest first they are all accepted *)
+Lemma greplay_sorted {A} (kf : A -> N) (df : A -> Z) (l : list A) :
+  greplay A kf df [] (sort_by df l) = Some (rev (sort_by df l)).
+Proof. rewrite (greplay_asc kf df); [rewrite app_nil_r; reflexivity|apply sort_by_asc|intros v x []]. Qed.
+
+Lemma replay_users_sorted L : replay_users [] (sort_by u_date L) = Some (rev (sort_by u_date L)).
+Proof. rewrite replay_users_greplay. apply greplay_sorted. Qed.
+Lemma replay_rights_sorted L : replay_rights [] (sort_by r_from L) = Some (rev (sort_by r_from L)).
+Proof. rewrite replay_rights_greplay. apply greplay_sorted. Qed.
+
+Lemma reload_auth_total evs g :
+  reload_auth evs g = Some {| a_id := g;
+                              a_users := rev (sort_by u_date (hist_users evs g));
+                              a_rights := rev (sort_by r_from (hist_rights_raw evs g));
+                              a_uadmins := rev (sort_by u_date (hist_uadmins evs g)) |}.
+Proof. unfold reload_auth. rewrite !replay_users_sorted, replay_rights_sorted. reflexivity. Qed.
+
+(* an instance can always be restarted on data it wrote itself: the reload never fails *)
+Theorem reload_total evs : exists r, reload evs = Some r.
+Proof.
+  unfold reload.
+  assert (Ha : forall gs, exists aus, reload_auths evs gs = Some aus).
+  { induction gs as [|g tl [aus IH]]; simpl; [eauto|]. rewrite reload_auth_total, IH. eauto. }
+  destruct (Ha (groups (map snd evs))) as [aus ->]. rewrite replay_users_sorted. eauto.
 Qed.
 
-(* ------------------------------------------------------------------ reload fails inside class 1 *)
-Definition one_date_users (l : list user) : Prop :=
-  forall x y, In x l -> In y l -> u_key x = u_key y -> u_date x = u_date y.
-Definition one_date_rights (l : list eright) : Prop :=
-  forall x y, In x l -> In y l -> r_ent x = r_ent y -> r_from x = r_from y.
-
-Lemma replay_users_desc_ok l r : replay_users [] (desc_by u_date l) = Some r -> one_date_users l.
-Proof.
-  intros H x y Hx Hy Hk. destruct (Z.eq_dec (u_date x) (u_date y)) as [|Hne]; [assumption|].
-  rewrite replay_users_greplay, (greplay_desc_two_dates u_key u_date l x y Hx Hy Hk Hne) in H. discriminate.
-Qed.
-Lemma replay_rights_desc_ok l r : replay_rights [] (desc_by r_from l) = Some r -> one_date_rights l.
-Proof.
-  intros H x y Hx Hy Hk. destruct (Z.eq_dec (r_from x) (r_from y)) as [|Hne]; [assumption|].
-  rewrite replay_rights_greplay, (greplay_desc_two_dates r_ent r_from l x y Hx Hy Hk Hne) in H. discriminate.
-Qed.
-
-Lemma reload_auths_in evs gs aus g :
-  reload_auths evs gs = Some aus -> In g gs -> exists a, reload_auth evs g = Some a.
-Proof.
-  revert aus. induction gs as [|g0 tl IH]; simpl; intros aus H Hin; [contradiction|].
-  destruct (reload_auth evs g0) as [a|] eqn:Ha; [|discriminate].
-  destruct (reload_auths evs tl) as [l|] eqn:Hl; [|discriminate].
-  destruct Hin as [->|Hin]; [eauto|eapply IH; eauto].
-Qed.
-
-(* reload succeeds only if no key (or entity) of any list has two entries with different dates *)
-Theorem reload_requires_one_date evs r :
-  reload evs = Some r ->
-  one_date_users (hist_admins evs) /\
-  forall g, In g (groups (map snd evs)) ->
-    one_date_users (hist_users evs g) /\ one_date_users (hist_uadmins evs g) /\ one_date_rights (hist_rights_raw evs g).
-Proof.
-  unfold reload. intros H.
-  destruct (reload_auths evs (groups (map snd evs))) as [aus|] eqn:Ha; [|discriminate].
-  destruct (replay_users [] (desc_by u_date (hist_admins evs))) as [ads|] eqn:Hd; [|discriminate].
-  split; [eapply replay_users_desc_ok; eauto|].
-  intros g Hg. destruct (reload_auths_in _ _ _ _ Ha Hg) as [a Hra].
-  unfold reload_auth in Hra.
-  destruct (replay_users [] (desc_by u_date (hist_users evs g))) as [us|] eqn:H1; [|discriminate].
-  destruct (replay_users [] (desc_by u_date (hist_uadmins evs g))) as [uas|] eqn:H2; [|discriminate].
-  destruct (replay_rights [] (desc_by r_from (hist_rights_raw evs g))) as [rs|] eqn:H3; [|discriminate].
-  repeat split; [eapply replay_users_desc_ok|eapply replay_users_desc_ok|eapply replay_rights_desc_ok]; eauto.
-Qed.
-
-(* ------------------------------------------------------------------ class 1 of known_C10 => reload fails *)
-Definition groups_known (evs : list event) : Prop :=
-  forall ev, In ev evs ->
-    match ev with
-    | EvUser g _ _ _ | EvUAdmin g _ _ _ | EvRight g _ _ _ _ => In g (groups evs)
-    | _ => True
-    end.
-
+(* ------------------------------------------------------------------ the histories, seen from RightsP *)
 Lemma pk_order_flat_map {B C} (F : B -> list (N * C)) (l : list B) :
   pk_order (flat_map F l) = flat_map (fun x => map snd (F x)) l.
 Proof. unfold pk_order. induction l as [|x tl IH]; simpl; [reflexivity|]. rewrite map_app, IH. reflexivity. Qed.
@@ -178,125 +151,14 @@ Proof.
   induction evs as [|[i ev] tl IH]; simpl; [reflexivity|]. rewrite IH. destruct ev; try reflexivity.
   simpl. destruct (N.eqb g0 g); reflexivity.
 Qed.
-Definition raw_rights (evs : list event) (g : uid) : list eright :=
-  flat_map (fun ev => match ev with EvRight g' e d s a => if N.eqb g' g then [{| r_from := d; r_ent := e; r_self := s; r_all := a |}] else [] | _ => [] end) evs.
-Lemma hist_rights_eq evs g : hist_rights_raw evs g = raw_rights (map snd evs) g.
+Lemma hist_rights_eq evs g : hist_rights_raw evs g = group_rights (map snd evs) g.
 Proof.
-  unfold hist_rights_raw, raw_rights. rewrite pk_order_flat_map.
+  unfold hist_rights_raw, group_rights. rewrite pk_order_flat_map.
   induction evs as [|[i ev] tl IH]; simpl; [reflexivity|]. rewrite IH. destruct ev; try reflexivity.
   simpl. destruct (N.eqb g0 g); reflexivity.
 Qed.
 
-(* entries of the history, seen from the slot list of known_C10 *)
-Lemma in_admin_users evs u : In u (admin_users evs) <-> In (EvAdmin (u_key u) (u_date u) (u_enabled u)) evs.
-Proof.
-  unfold admin_users. rewrite in_flat_map. split.
-  - intros (ev & Hin & Hu). destruct ev; simpl in Hu; try contradiction. destruct Hu as [<-|[]]. exact Hin.
-  - intros H. eexists; split; [exact H|]. simpl. left. destruct u; reflexivity.
-Qed.
-Lemma in_group_users evs g u : In u (group_users evs g) <-> In (EvUser g (u_key u) (u_date u) (u_enabled u)) evs.
-Proof.
-  unfold group_users. rewrite in_flat_map. split.
-  - intros (ev & Hin & Hu). destruct ev; simpl in Hu; try contradiction.
-    destruct (N.eqb g0 g) eqn:He; [|contradiction]. apply N.eqb_eq in He. subst. destruct Hu as [<-|[]]. exact Hin.
-  - intros H. eexists; split; [exact H|]. simpl. rewrite N.eqb_refl. left. destruct u; reflexivity.
-Qed.
-Lemma in_group_uadmins evs g u : In u (group_uadmins evs g) <-> In (EvUAdmin g (u_key u) (u_date u) (u_enabled u)) evs.
-Proof.
-  unfold group_uadmins. rewrite in_flat_map. split.
-  - intros (ev & Hin & Hu). destruct ev; simpl in Hu; try contradiction.
-    destruct (N.eqb g0 g) eqn:He; [|contradiction]. apply N.eqb_eq in He. subst. destruct Hu as [<-|[]]. exact Hin.
-  - intros H. eexists; split; [exact H|]. simpl. rewrite N.eqb_refl. left. destruct u; reflexivity.
-Qed.
-Lemma in_raw_rights evs g r : In r (raw_rights evs g) <-> In (EvRight g (r_ent r) (r_from r) (r_self r) (r_all r)) evs.
-Proof.
-  unfold raw_rights. rewrite in_flat_map. split.
-  - intros (ev & Hin & Hu). destruct ev; simpl in Hu; try contradiction.
-    destruct (N.eqb g0 g) eqn:He; [|contradiction]. apply N.eqb_eq in He. subst. destruct Hu as [<-|[]]. exact Hin.
-  - intros H. eexists; split; [exact H|]. simpl. rewrite N.eqb_refl. left. destruct r; reflexivity.
-Qed.
-
-Lemma slot_eqb_eq a b : slot_eqb a b = true <-> a = b.
-Proof.
-  destruct a as [[a1 a2] a3], b as [[b1 b2] b3]. unfold slot_eqb. simpl.
-  rewrite !andb_true_iff, !N.eqb_eq. split; [intros [[-> ->] ->]; reflexivity|intros H; inversion H; auto].
-Qed.
-
-Lemma two_dates_false l : two_dates l = false ->
-  forall s d d', In (s, d) l -> In (s, d') l -> d = d'.
-Proof.
-  induction l as [|[k0 d0] tl IH]; simpl; intros H s d d' H1 H2; [contradiction|].
-  apply orb_false_iff in H. destruct H as [Hex Htl].
-  assert (Hno : forall d1, In (k0, d1) tl -> d1 = d0).
-  { intros d1 Hin. rewrite <- not_true_iff_false in Hex. destruct (Z.eq_dec d1 d0) as [|Hne]; [assumption|].
-    exfalso. apply Hex. apply existsb_exists. exists (k0, d1). split; [exact Hin|]. simpl.
-    rewrite (proj2 (slot_eqb_eq k0 k0) eq_refl). simpl. apply negb_true_iff. apply Z.eqb_neq. exact Hne. }
-  destruct H1 as [H1|H1]; destruct H2 as [H2|H2].
-  - inversion H1; inversion H2; subst. reflexivity.
-  - inversion H1; subst. symmetry. apply Hno. exact H2.
-  - inversion H2; subst. apply Hno. exact H1.
-  - eapply IH; eauto.
-Qed.
-Lemma two_dates_true l s d d' : In (s, d) l -> In (s, d') l -> d <> d' -> two_dates l = true.
-Proof.
-  intros H1 H2 Hne. destruct (two_dates l) eqn:Ht; [reflexivity|].
-  exfalso. apply Hne. eapply two_dates_false; eauto.
-Qed.
-
-Lemma in_entry_keys evs s d :
-  In (s, d) (entry_keys evs) <->
-  exists ev, In ev evs /\
-    match ev with
-    | EvGroup _ => False
-    | EvAdmin k d' _ => s = (0, 0, k)%N /\ d = d'
-    | EvUser g k d' _ => s = (1, g, k)%N /\ d = d'
-    | EvUAdmin g k d' _ => s = (2, g, k)%N /\ d = d'
-    | EvRight g e d' _ _ => s = (3, g, e)%N /\ d = d'
-    end.
-Proof.
-  unfold entry_keys. rewrite in_flat_map. split.
-  - intros (ev & Hin & H). exists ev. split; [exact Hin|]. destruct ev; simpl in H; try contradiction;
-      destruct H as [H|[]]; inversion H; auto.
-  - intros (ev & Hin & H). exists ev. split; [exact Hin|]. destruct ev; simpl; try contradiction;
-      destruct H as [-> ->]; left; reflexivity.
-Qed.
-
-(* every history that lies in class 1 of known_C10 cannot be reloaded *)
-Theorem class1_reload_fails evs :
-  groups_known (map snd evs) -> two_dates (entry_keys (map snd evs)) = true -> reload evs = None.
-Proof.
-  intros Hg Ht. destruct (reload evs) as [r|] eqn:Hr; [exfalso|reflexivity].
-  destruct (reload_requires_one_date evs r Hr) as [Had Hgr].
-  assert (Hf : two_dates (entry_keys (map snd evs)) = false); [|congruence].
-  clear Ht. destruct (two_dates (entry_keys (map snd evs))) eqn:Ht; [exfalso|reflexivity].
-  (* find the two entries *)
-  assert (Hex : exists s d d', In (s, d) (entry_keys (map snd evs)) /\ In (s, d') (entry_keys (map snd evs)) /\ d <> d').
-  { clear - Ht. induction (entry_keys (map snd evs)) as [|[k0 d0] tl IH]; simpl in Ht; [discriminate|].
-    apply orb_true_iff in Ht. destruct Ht as [Ht|Ht].
-    - apply existsb_exists in Ht. destruct Ht as ([k1 d1] & Hin & Hp). simpl in Hp.
-      apply andb_true_iff in Hp. destruct Hp as [Hk Hd]. apply slot_eqb_eq in Hk. subst k1.
-      apply negb_true_iff, Z.eqb_neq in Hd. exists k0, d0, d1. simpl. auto.
-    - destruct (IH Ht) as (s & d & d' & H1 & H2 & H3). exists s, d, d'. simpl. auto. }
-  destruct Hex as (s & d & d' & H1 & H2 & Hne).
-  apply in_entry_keys in H1. apply in_entry_keys in H2.
-  destruct H1 as (e1 & Hi1 & M1). destruct H2 as (e2 & Hi2 & M2).
-  rewrite hist_admins_eq in Had.
-  destruct e1 as [?|k1 d1 b1|g1 k1 d1 b1|g1 k1 d1 b1|g1 x1 d1 s1 a1]; try contradiction; destruct M1 as [-> ->];
-  destruct e2 as [?|k2 d2 b2|g2 k2 d2 b2|g2 k2 d2 b2|g2 x2 d2 s2 a2]; try contradiction; destruct M2 as [M2 ->]; inversion M2; subst.
-  - apply Hne. apply (Had {| u_key := k2; u_date := d1; u_enabled := b1 |} {| u_key := k2; u_date := d2; u_enabled := b2 |});
-      try apply in_admin_users; simpl; auto.
-  - pose proof (Hg _ Hi1) as Hgin. simpl in Hgin. destruct (Hgr _ Hgin) as (Hu & _ & _). rewrite hist_users_eq in Hu.
-    apply Hne. apply (Hu {| u_key := k2; u_date := d1; u_enabled := b1 |} {| u_key := k2; u_date := d2; u_enabled := b2 |});
-      try apply in_group_users; simpl; auto.
-  - pose proof (Hg _ Hi1) as Hgin. simpl in Hgin. destruct (Hgr _ Hgin) as (_ & Hu & _). rewrite hist_uadmins_eq in Hu.
-    apply Hne. apply (Hu {| u_key := k2; u_date := d1; u_enabled := b1 |} {| u_key := k2; u_date := d2; u_enabled := b2 |});
-      try apply in_group_uadmins; simpl; auto.
-  - pose proof (Hg _ Hi1) as Hgin. simpl in Hgin. destruct (Hgr _ Hgin) as (_ & _ & Hu). rewrite hist_rights_eq in Hu.
-    apply Hne. apply (Hu {| r_from := d1; r_ent := x2; r_self := s1; r_all := a1 |} {| r_from := d2; r_ent := x2; r_self := s2; r_all := a2 |});
-      try apply in_raw_rights; simpl; auto.
-Qed.
-
-(* ------------------------------------------------------------------ outside the known classes: reload = live *)
+(* ------------------------------------------------------------------ reload = live *)
 Definition leq (l l' : list user) : Prop := forall k d, lookup_user l k d = lookup_user l' k d.
 Definition req (l l' : list eright) : Prop := forall e d, lookup_right l e d = lookup_right l' e d.
 Definition aequiv (a a' : auth) : Prop :=
@@ -332,8 +194,6 @@ Proof.
     intros a a' (_ & _ & Hua & _). cbv beta. unfold can_admin_users. apply enabled_at_leq. exact Hua.
 Qed.
 
-(* looking a key up only sees the entries of that key; a stable sort by date does not move them
-   when they all carry one date *)
 Lemma lookup_user_filter l k d :
   lookup_user l k d = find (fun u => Z.leb (u_date u) d) (filter (fun u => N.eqb (u_key u) k) l).
 Proof. unfold lookup_user. apply find_and_filter. Qed.
@@ -341,108 +201,77 @@ Lemma lookup_right_filter l e d :
   lookup_right l e d = find (fun r => Z.leb (r_from r) d) (filter (fun r => N.eqb (r_ent r) e) l).
 Proof. unfold lookup_right. apply find_and_filter. Qed.
 
-Lemma leq_desc L : one_date_users L -> leq (rev (desc_by u_date L)) (rev L).
+
+(* the stable sort commutes with taking the entries of one key ... *)
+Lemma filter_insert_sorted {A} (f : A -> Z) (p : A -> bool) x s :
+  asc A f s -> filter p (insert_by f x s) = if p x then insert_by f x (filter p s) else filter p s.
 Proof.
-  intros H1 k d. rewrite !lookup_user_filter, !filter_rev. unfold desc_by.
-  set (c := match find (fun u => N.eqb (u_key u) k) L with Some u => - u_date u | None => 0 end).
-  rewrite (filter_sort_by user (fun x => - u_date x) (fun u => N.eqb (u_key u) k) c); [reflexivity|].
-  intros y Hy Hk. apply N.eqb_eq in Hk. unfold c.
-  destruct (find (fun u => N.eqb (u_key u) k) L) as [u|] eqn:Hf.
-  - apply find_some in Hf. destruct Hf as [Hin He]. apply N.eqb_eq in He.
-    rewrite (H1 y u Hy Hin); [reflexivity|congruence].
-  - eapply find_none in Hf; [|exact Hy]. apply N.eqb_neq in Hf. contradiction.
+  induction s as [|y tl IH]; simpl; intros Hs; [destruct (p x); reflexivity|].
+  destruct Hs as [Hy Hs]. destruct (Z.leb (f x) (f y)) eqn:Hle.
+  - simpl. destruct (p x) eqn:Hpx; [|reflexivity].
+    destruct (p y) eqn:Hpy; simpl; [rewrite Hle; reflexivity|].
+    (* the first kept element of tl is not below y, hence not below x *)
+    apply Z.leb_le in Hle. clear IH Hs. induction tl as [|z t IHt]; simpl; [reflexivity|].
+    inversion Hy as [|? ? Hz Ht]; subst. destruct (p z); simpl.
+    + assert (Z.leb (f x) (f z) = true) as -> by (apply Z.leb_le; lia). reflexivity.
+    + apply IHt. exact Ht.
+  - simpl. rewrite (IH Hs). destruct (p y) eqn:Hpy; simpl.
+    + destruct (p x); [rewrite Hle|]; reflexivity.
+    + reflexivity.
 Qed.
-Lemma req_desc L : one_date_rights L -> req (rev (desc_by r_from L)) (rev L).
+Lemma filter_sort_comm {A} (f : A -> Z) (p : A -> bool) l :
+  filter p (sort_by f l) = sort_by f (filter p l).
 Proof.
-  intros H1 e d. rewrite !lookup_right_filter, !filter_rev. unfold desc_by.
-  set (c := match find (fun r => N.eqb (r_ent r) e) L with Some u => - r_from u | None => 0 end).
-  rewrite (filter_sort_by eright (fun x => - r_from x) (fun r => N.eqb (r_ent r) e) c); [reflexivity|].
-  intros y Hy Hk. apply N.eqb_eq in Hk. unfold c.
-  destruct (find (fun r => N.eqb (r_ent r) e) L) as [u|] eqn:Hf.
-  - apply find_some in Hf. destruct Hf as [Hin He]. apply N.eqb_eq in He.
-    rewrite (H1 y u Hy Hin); [reflexivity|congruence].
-  - eapply find_none in Hf; [|exact Hy]. apply N.eqb_neq in Hf. contradiction.
+  induction l as [|x tl IH]; simpl; [reflexivity|].
+  rewrite filter_insert_sorted by apply sort_by_asc. rewrite IH. destruct (p x); reflexivity.
+Qed.
+(* ... and leaves an ascending list as it is *)
+Lemma sort_by_asc_id {A} (f : A -> Z) l : asc A f l -> sort_by f l = l.
+Proof.
+  induction l as [|x tl IH]; simpl; intros Hs; [reflexivity|]. destruct Hs as [Hx Hs]. rewrite (IH Hs).
+  destruct tl as [|y t]; [reflexivity|]. simpl. inversion Hx; subst.
+  assert (Z.leb (f x) (f y) = true) as -> by (apply Z.leb_le; assumption). reflexivity.
 Qed.
 
-Lemma replay_users_one_date L : one_date_users L -> replay_users [] (desc_by u_date L) = Some (rev (desc_by u_date L)).
+(* the append-only history of a key (newest first, dates descending) read oldest first is ascending *)
+Lemma desc_snoc l y : desc (l ++ [y]) -> desc l /\ Forall (fun z => y <= z) l.
 Proof.
-  intros H. rewrite replay_users_greplay, greplay_same_dates; [rewrite app_nil_r; reflexivity|].
-  intros x y Hx Hy. rewrite app_nil_r in Hx, Hy. unfold desc_by in Hx, Hy. apply sort_by_in in Hx, Hy. apply H; assumption.
+  induction l as [|a tl IH]; simpl; intros H; [split; [exact I|constructor]|].
+  destruct H as [Ha Ht]. destruct (IH Ht) as [Hd Hf]. rewrite Forall_app in Ha. destruct Ha as [Ha1 Ha2].
+  split; [split; assumption|]. constructor; [inversion Ha2; assumption|exact Hf].
 Qed.
-Lemma replay_rights_one_date L : one_date_rights L -> replay_rights [] (desc_by r_from L) = Some (rev (desc_by r_from L)).
+Lemma desc_rev_asc {A} (df : A -> Z) l : desc (map df (rev l)) -> asc A df l.
 Proof.
-  intros H. rewrite replay_rights_greplay, greplay_same_dates; [rewrite app_nil_r; reflexivity|].
-  intros x y Hx Hy. rewrite app_nil_r in Hx, Hy. unfold desc_by in Hx, Hy. apply sort_by_in in Hx, Hy. apply H; assumption.
-Qed.
-
-(* outside class 1 every list of the history carries one date per key *)
-Lemma no_class1_admins evs : two_dates (entry_keys evs) = false -> one_date_users (admin_users evs).
-Proof.
-  intros Ht x y Hx Hy Hk. apply in_admin_users in Hx, Hy.
-  apply (two_dates_false _ Ht (0, 0, u_key x)%N); apply in_entry_keys.
-  - eexists; split; [exact Hx|]. simpl; auto.
-  - eexists; split; [exact Hy|]. simpl; rewrite Hk; auto.
-Qed.
-Lemma no_class1_users evs g : two_dates (entry_keys evs) = false -> one_date_users (group_users evs g).
-Proof.
-  intros Ht x y Hx Hy Hk. apply in_group_users in Hx, Hy.
-  apply (two_dates_false _ Ht (1, g, u_key x)%N); apply in_entry_keys.
-  - eexists; split; [exact Hx|]. simpl; auto.
-  - eexists; split; [exact Hy|]. simpl; rewrite Hk; auto.
-Qed.
-Lemma no_class1_uadmins evs g : two_dates (entry_keys evs) = false -> one_date_users (group_uadmins evs g).
-Proof.
-  intros Ht x y Hx Hy Hk. apply in_group_uadmins in Hx, Hy.
-  apply (two_dates_false _ Ht (2, g, u_key x)%N); apply in_entry_keys.
-  - eexists; split; [exact Hx|]. simpl; auto.
-  - eexists; split; [exact Hy|]. simpl; rewrite Hk; auto.
-Qed.
-Lemma no_class1_rights evs g : two_dates (entry_keys evs) = false -> one_date_rights (raw_rights evs g).
-Proof.
-  intros Ht x y Hx Hy Hk. apply in_raw_rights in Hx, Hy.
-  apply (two_dates_false _ Ht (3, g, r_ent x)%N); apply in_entry_keys.
-  - eexists; split; [exact Hx|]. simpl; auto.
-  - eexists; split; [exact Hy|]. simpl; rewrite Hk; auto.
+  induction l as [|x tl IH]; simpl; intros H; [exact I|].
+  rewrite map_app in H. simpl in H. apply desc_snoc in H. destruct H as [Hd Hf].
+  split; [|apply IH; exact Hd].
+  rewrite Forall_map in Hf. apply Forall_rev in Hf. rewrite rev_involutive in Hf. exact Hf.
 Qed.
 
-(* outside class 2 the stored flags are the normalised ones *)
-Definition normalised (evs : list event) : bool :=
-  forallb (fun ev => match ev with EvRight _ _ _ s a => implb a s | _ => true end) evs.
-Lemma raw_rights_normalised evs g : normalised evs = true -> raw_rights evs g = group_rights evs g.
+Lemma leq_sorted L : ksorted user u_key u_date (rev L) -> leq (rev (sort_by u_date L)) (rev L).
 Proof.
-  unfold normalised, raw_rights, group_rights. induction evs as [|ev tl IH]; simpl; intros H; [reflexivity|].
-  apply andb_true_iff in H. destruct H as [Hev Htl]. rewrite (IH Htl). f_equal.
-  destruct ev; try reflexivity. destruct (N.eqb g0 g); [|reflexivity].
-  unfold mk_right. destruct s, a; simpl in *; try reflexivity; discriminate.
+  intros Hs k d. rewrite !lookup_user_filter, !filter_rev, filter_sort_comm.
+  rewrite sort_by_asc_id; [reflexivity|]. apply desc_rev_asc. specialize (Hs k). rewrite filter_rev in Hs. exact Hs.
 Qed.
-
-Lemma reload_auth_one_date evs g :
-  two_dates (entry_keys (map snd evs)) = false ->
-  reload_auth evs g = Some {| a_id := g;
-                              a_users := rev (desc_by u_date (hist_users evs g));
-                              a_rights := rev (desc_by r_from (hist_rights_raw evs g));
-                              a_uadmins := rev (desc_by u_date (hist_uadmins evs g)) |}.
+Lemma req_sorted L : ksorted eright r_ent r_from (rev L) -> req (rev (sort_by r_from L)) (rev L).
 Proof.
-  intros Ht. unfold reload_auth.
-  rewrite replay_users_one_date by (rewrite hist_users_eq; apply no_class1_users; exact Ht).
-  rewrite replay_users_one_date by (rewrite hist_uadmins_eq; apply no_class1_uadmins; exact Ht).
-  rewrite replay_rights_one_date by (rewrite hist_rights_eq; apply no_class1_rights; exact Ht).
-  reflexivity.
+  intros Hs k d. rewrite !lookup_right_filter, !filter_rev, filter_sort_comm.
+  rewrite sort_by_asc_id; [reflexivity|]. apply desc_rev_asc. specialize (Hs k). rewrite filter_rev in Hs. exact Hs.
 Qed.
 
 Lemma reload_auths_equiv evs (auths : list auth) :
-  two_dates (entry_keys (map snd evs)) = false -> normalised (map snd evs) = true ->
-  Forall (auth_rep (map snd evs)) auths ->
+  Forall (auth_rep (map snd evs)) auths -> Forall auth_sorted auths ->
   exists aus, reload_auths evs (map a_id auths) = Some aus /\ Forall2 aequiv aus auths.
 Proof.
-  intros Ht Hn. induction 1 as [|a tl Ha _ IH]; simpl; [exists []; split; [reflexivity|constructor]|].
-  destruct IH as (aus & Hr & Hf). rewrite (reload_auth_one_date evs (a_id a) Ht), Hr.
+  intros Hrep. induction Hrep as [|a tl Ha _ IH]; simpl; intros Hss; [exists []; split; [reflexivity|constructor]|].
+  inversion Hss as [|? ? Hsa Hst]; subst. destruct (IH Hst) as (aus & Hr & Hf).
+  rewrite (reload_auth_total evs (a_id a)), Hr.
   eexists; split; [reflexivity|]. constructor; [|exact Hf].
-  destruct Ha as (R1 & R2 & R3). unfold aequiv. simpl.
+  destruct Ha as (R1 & R2 & R3). destruct Hsa as (S1 & S2 & S3). unfold aequiv. simpl.
   split; [reflexivity|]. split; [|split].
-  - rewrite R1, hist_users_eq. apply leq_desc. apply no_class1_users. exact Ht.
-  - rewrite R2, hist_uadmins_eq. apply leq_desc. apply no_class1_uadmins. exact Ht.
-  - rewrite R3, hist_rights_eq, <- (raw_rights_normalised _ _ Hn). apply req_desc. apply no_class1_rights. exact Ht.
+  - rewrite R1 in *. rewrite hist_users_eq. apply leq_sorted. exact S1.
+  - rewrite R2 in *. rewrite hist_uadmins_eq. apply leq_sorted. exact S2.
+  - rewrite R3 in *. rewrite hist_rights_eq. apply req_sorted. exact S3.
 Qed.
 
 (* every step accepted live = the strict replay succeeds *)
@@ -455,26 +284,23 @@ Proof.
   - destruct (build_from r tl) as [rf oks]. simpl in H. discriminate.
 Qed.
 
-Theorem reload_outside_known evs rl :
+(* for EVERY history the live path accepted: the reloaded room exists and decides as the live room *)
+Theorem reload_is_live evs rl :
   build_strict (empty_room 1%N) (map snd evs) = Some rl ->
-  two_dates (entry_keys (map snd evs)) = false ->
-  normalised (map snd evs) = true ->
   exists r, reload evs = Some r /\ forall probes, decisions r probes = decisions rl probes.
 Proof.
-  intros Hb Ht Hn.
+  intros Hb.
   pose proof (build_strict_Rep (map snd evs) [] (empty_room 1%N) rl (Rep_empty 1%N) Hb) as HR. simpl in HR.
-  destruct HR as (Had & Hids & Hrep & _ & _ & _).
-  destruct (reload_auths_equiv evs (rm_auths rl) Ht Hn Hrep) as (aus & Hr & Hf).
-  unfold reload. rewrite <- Hids, Hr.
-  rewrite replay_users_one_date by (rewrite hist_admins_eq; apply no_class1_admins; exact Ht).
+  destruct HR as (Had & Hids & Hrep & Hsa & Hss & _).
+  destruct (reload_auths_equiv evs (rm_auths rl) Hrep Hss) as (aus & Hr & Hf).
+  unfold reload. rewrite <- Hids, Hr, replay_users_sorted.
   eexists; split; [reflexivity|]. intros probes. unfold decisions.
   apply flat_map_ext. intros p. apply decide_equiv; simpl.
-  - rewrite Had, hist_admins_eq. apply leq_desc. apply no_class1_admins. exact Ht.
+  - rewrite Had in *. rewrite hist_admins_eq. apply leq_sorted. exact Hsa.
   - exact Hf.
 Qed.
 
 (* ------------------------------------------------------------------ statements about what the harness evaluates *)
-
 Lemma probe_spec_decide evs p : probe_spec evs p = decide_spec evs p.
 Proof. destruct p as [[k e] d]. reflexivity. Qed.
 
@@ -492,56 +318,53 @@ Proof.
   rewrite (Rep_decisions _ _ probes HR). apply flat_map_ext. intros p. symmetry. apply probe_spec_decide.
 Qed.
 
-(* (b) the reload part of run_C10, outside classes 1 and 2 *)
-Theorem reload_part_outside_known steps probes :
+(* (b) the reload part of run_C10: present and equal to the live decisions, for every accepted history *)
+Theorem reload_part_holds steps probes :
   all_accepted steps ->
-  two_dates (entry_keys (events_of steps)) = false ->
-  normalised (events_of steps) = true ->
   dec_opt (reload (concat steps)) probes = 1 :: decisions (fst (live steps)) probes.
 Proof.
-  unfold all_accepted, live, events_of. intros H Ht Hn.
+  unfold all_accepted, live, events_of. intros H.
   pose proof (build_from_all_ok _ _ H) as Hb.
-  destruct (reload_outside_known (concat steps) _ Hb Ht Hn) as (r & Hr & Hd).
+  destruct (reload_is_live (concat steps) _ Hb) as (r & Hr & Hd).
   rewrite Hr. simpl. rewrite Hd. reflexivity.
 Qed.
 
-(* (c) restart: the start of an instance on its own data succeeds exactly outside class 1 *)
-Lemma reload_succeeds evs :
-  two_dates (entry_keys (map snd evs)) = false -> exists r, reload evs = Some r.
+(* (c) class 4 repaired: a group new to the peer whose user-admin entries, users and rights are all
+   authored by room administrators (what the local path accepts from an administrator) is accepted *)
+Lemma all_admin_users_true r l : Forall (fun x => is_admin r (un_author x) (un_date x) = true) l -> all_admin_users r l = true.
+Proof. induction 1 as [|x tl Hx _ IH]; simpl; [reflexivity|]. rewrite Hx, IH. reflexivity. Qed.
+Lemma all_admin_rights_true r l : Forall (fun x => is_admin r (rn_author x) (rn_date x) = true) l -> all_admin_rights r l = true.
+Proof. induction 1 as [|x tl Hx _ IH]; simpl; [reflexivity|]. rewrite Hx, IH. reflexivity. Qed.
+Lemma all_uadmin_or_admin_true r a l : Forall (fun x => is_admin r (un_author x) (un_date x) = true) l -> all_uadmin_or_admin_users r a l = true.
+Proof. induction 1 as [|x tl Hx _ IH]; simpl; [reflexivity|]. rewrite Hx, IH, orb_true_r. reflexivity. Qed.
+Theorem new_group_by_admin_accepted r g a :
+  parse_auth g = POk a ->
+  Forall (fun x => is_admin r (un_author x) (un_date x) = true) (an_anodes g) ->
+  Forall (fun x => is_admin r (un_author x) (un_date x) = true) (an_unodes g) ->
+  Forall (fun x => is_admin r (rn_author x) (rn_date x) = true) (an_rnodes g) ->
+  prepare_new_auth r g = POk tt.
 Proof.
-  intros Ht. unfold reload.
-  assert (Ha : forall gs, exists aus, reload_auths evs gs = Some aus).
-  { induction gs as [|g tl [aus IH]]; simpl; [eauto|]. rewrite (reload_auth_one_date evs g Ht), IH. eauto. }
-  destruct (Ha (groups (map snd evs))) as [aus ->].
-  rewrite replay_users_one_date by (rewrite hist_admins_eq; apply no_class1_admins; exact Ht). eauto.
-Qed.
-Theorem restart_iff evs :
-  groups_known (map snd evs) ->
-  ((exists r, reload evs = Some r) <-> two_dates (entry_keys (map snd evs)) = false).
-Proof.
-  intros Hg. split.
-  - intros [r Hr]. destruct (two_dates (entry_keys (map snd evs))) eqn:Ht; [|reflexivity].
-    rewrite (class1_reload_fails evs Hg Ht) in Hr. discriminate.
-  - apply reload_succeeds.
+  intros Hp H1 H2 H3. unfold prepare_new_auth, pbind. rewrite Hp.
+  rewrite (all_admin_users_true _ _ H1), (all_uadmin_or_admin_true r a _ H2), (all_admin_rights_true _ _ H3). reflexivity.
 Qed.
 
 (* ------------------------------------------------------------------ closed witnesses (replayed by the harness as directed cases) *)
 Definition w_probes : list probe := [(1%N, 1%N, 20000); (2%N, 1%N, 6000); (2%N, 1%N, 20000); (3%N, 1%N, 20000)].
-(* class 1: a user enabled, later disabled *)
+(* former class 1: a user enabled, later disabled *)
 Definition w1 : c10case :=
   CRestart 1%N [[(100, EvAdmin 1 5000 true); (0, EvGroup 10); (101, EvRight 10 0 5000 true false); (102, EvUser 10 2 5000 true)];
                 [(103, EvUser 10 2 8000 false)]]%N w_probes.
 Definition w1h : c10case :=
   CHist 1%N [[(100, EvAdmin 1 5000 true); (0, EvGroup 10); (101, EvRight 10 0 5000 true false); (102, EvUser 10 2 5000 true)];
              [(103, EvUser 10 2 8000 false)]]%N w_probes.
-(* class 2: a right with all rows but not own rows *)
+(* former class 2: a right with all rows but not own rows *)
 Definition w2 : c10case :=
   CHist 1%N [[(100, EvAdmin 1 5000 true); (0, EvGroup 10); (101, EvRight 10 1 5000 false true); (102, EvUser 10 2 5000 true)]]%N w_probes.
 (* class 3: enabled and disabled in the same millisecond, the later row has the smaller id *)
 Definition w3 : c10case :=
   CHist 1%N [[(100, EvAdmin 1 5000 true); (0, EvGroup 10); (101, EvRight 10 0 5000 true false); (102, EvUser 10 2 5000 true)];
              [(104, EvUser 10 3 8000 true)]; [(103, EvUser 10 3 8000 false)]]%N w_probes.
-(* class 4: a later step creates a group with a user in it *)
+(* former class 4: a later step creates a group with a user in it *)
 Definition w4 : c10case :=
   CHist 1%N [[(100, EvAdmin 1 5000 true); (0, EvGroup 10); (101, EvRight 10 0 5000 true false); (102, EvUser 10 2 5000 true)];
              [(0, EvGroup 11); (103, EvRight 11 1 8000 true true); (104, EvUser 11 3 8000 true)]]%N w_probes.
@@ -551,17 +374,17 @@ Definition w0 : c10case :=
              [(103, EvUser 10 3 8000 true); (104, EvUAdmin 10 2 8000 true)];
              [(0, EvGroup 11); (105, EvRight 11 1 9000 true true)]; [(106, EvUser 11 3 9500 true)]]%N w_probes.
 
-Lemma refuted_1 : known_C10 w1 = [1] /\ spec_C10 w1 (run_C10 w1) = false /\
-                  known_C10 w1h = [1] /\ spec_C10 w1h (run_C10 w1h) = false.
+(* the witnesses of the repaired classes 1, 2 and 4 now pass the oracle *)
+Lemma repaired_1 : known_C10 w1 = [] /\ spec_C10 w1 (run_C10 w1) = true /\
+                   known_C10 w1h = [] /\ spec_C10 w1h (run_C10 w1h) = true.
 Proof. vm_compute. auto. Qed.
-Lemma refuted_2 : known_C10 w2 = [2] /\ spec_C10 w2 (run_C10 w2) = false.
+Lemma repaired_2 : known_C10 w2 = [] /\ spec_C10 w2 (run_C10 w2) = true.
 Proof. vm_compute. auto. Qed.
 Lemma refuted_3 : known_C10 w3 = [3] /\ spec_C10 w3 (run_C10 w3) = false.
 Proof. vm_compute. auto. Qed.
-Lemma refuted_4 : known_C10 w4 = [4] /\ spec_C10 w4 (run_C10 w4) = false.
+Lemma repaired_4 : known_C10 w4 = [] /\ spec_C10 w4 (run_C10 w4) = true.
 Proof. vm_compute. auto. Qed.
 Lemma nonvacuous_0 :
   known_C10 w0 = [] /\ spec_C10 w0 (run_C10 w0) = true /\
-  all_accepted (case_steps w0) /\ two_dates (entry_keys (events_of (case_steps w0))) = false /\
-  normalised (events_of (case_steps w0)) = true.
+  all_accepted (case_steps w0).
 Proof. vm_compute. auto. Qed.
